@@ -260,7 +260,14 @@ class Kinds:
                         continue
                     fn = c.func
                     callee = fn.attr if isinstance(fn, ast.Attribute) else (fn.id if isinstance(fn, ast.Name) else None)
-                    if callee != f.name:
+                    ctor = False
+                    if f.name == "__init__" and enclosing_class(f) is not None:
+                        # constructor parameters: only `ClassName(...)` call sites (super().__init__ of other
+                        # classes share the method name but not the signature)
+                        if callee != enclosing_class(f).name:
+                            continue
+                        ctor = True
+                    elif callee != f.name:
                         continue
                     if nested and enclosing_function(c) is not f and enclosing_function(c) is not parent(f) \
                             and parent(f) not in list(_anc(c)):
@@ -271,7 +278,7 @@ class Kinds:
                             arg = k.value
                     if arg is None and pname in plist:
                         i = plist.index(pname)
-                        if is_method and isinstance(fn, ast.Attribute):
+                        if ctor or (is_method and isinstance(fn, ast.Attribute)):
                             i -= 1
                         if 0 <= i < len(c.args) and not any(isinstance(x, ast.Starred) for x in c.args[: i + 1]):
                             arg = c.args[i]
@@ -838,6 +845,17 @@ def k7_seen_threading(ctx) -> None:
         if isinstance(loop, ast.For) and isinstance(loop.iter, ast.Call) and norm(loop.iter.func) == "_dfs_forest" \
                 and isinstance(loop.target, ast.Tuple) and len(loop.target.elts) == 2:
             s2 = norm(loop.target.elts[0])
+            # the recursion on the remaining siblings starts from what the first child has seen
+            outer = [l for l in C.enclosing_loops(f, loop) if isinstance(l, ast.For) and isinstance(l.iter, ast.Call)
+                     and norm(l.iter.func) == "_dfs_tree" and isinstance(l.target, ast.Tuple) and len(l.target.elts) == 2]
+            if outer and len(loop.iter.args) >= 2:
+                s1 = norm(outer[0].target.elts[0])
+                n += 1
+                if norm(loop.iter.args[1]) == s1:
+                    ctx.ok("K7", f"_dfs_forest continues with the seen-set `{s1}` returned for the first child")
+                else:
+                    ctx.violation("K7", loop.iter, f"the remaining siblings are searched from `{norm(loop.iter.args[1])}` instead of the seen-set `{s1}` produced by "
+                                  "the first child: classes expanded under the first child are expanded again under its siblings (trees counted too big)")
             for y in walk_local(loop):
                 if isinstance(y, ast.Yield) and isinstance(y.value, ast.Tuple) and len(y.value.elts) == 2:
                     n += 1
@@ -1084,3 +1102,55 @@ def k10_representative_freshness(ctx, K: Kinds) -> None:
                                       "connect_cycles may have changed it by then")
     if n < 4:
         ctx.floor("K10", 99)
+
+
+# ------------------------------------------------------------------------ K11 / K12
+def k11_extractor_start(ctx, K: Kinds) -> None:
+    """EquivalenceRuleExtractor.start is a *raw* label (it is handed to find_path together
+    with raw labels of actual rules); its default is the raw start label."""
+    P = ctx.P
+    init = P.need_method("EquivalenceRuleExtractor", "__init__", own=True)
+    f = init.node
+    ctx.analysed(init)
+    assigns = [n for n in walk_local(f) if isinstance(n, ast.Assign) and any(is_self_attr(t, "start") for t in n.targets)]
+    if not assigns:
+        raise AnalysisError("K11: EquivalenceRuleExtractor.__init__ no longer sets self.start")
+    for a in assigns:
+        k = K.kind(a.value, f)
+        if k == RAW_START:
+            ctx.ok("K11", "EquivalenceRuleExtractor.start defaults to the raw start label")
+        elif k == UNKNOWN:
+            # call sites disagree or cannot be read: an analysis error unless K1 already reported the call sites
+            ctx.shortfalls.append(f"K11: cannot infer the kind of `{norm(a.value)}` (call sites of EquivalenceRuleExtractor disagree or are unreadable)")
+        else:
+            ctx.violation("K11", a, f"the default start of the equivalence path is `{norm(a.value)}` ({k}); the path is searched among raw class labels, so when the "
+                          "start class is not its own representative the path begins at another class")
+
+
+def k12_union_find_discipline(ctx) -> None:
+    """Whether two labels are equivalent is decided through find (`self[x]`); raw parent
+    pointers are not canonical (unseen labels have none, compression is lazy).  Outside
+    __getitem__ the parent table is only iterated over or written at a root."""
+    P = ctx.P
+    cls = P.need_class("EquivalenceDB")
+    K = Kinds(P)
+    n = 0
+    for m in cls.methods.values():
+        if m.name in ("__getitem__", "__init__", "__eq__"):
+            continue
+        f = m.node
+        for x in walk_local(f):
+            if is_self_attr(x, "parents"):
+                p = parent(x)
+                n += 1
+                if isinstance(p, ast.Subscript) and isinstance(p.ctx, ast.Load):
+                    ctx.violation("K12", C.stmt_of(x), f"{m.qualname} reads a raw parent pointer `{norm(p)}`; equivalence must be decided through self[...]")
+                elif isinstance(p, ast.Attribute) and p.attr in ("get", "setdefault", "pop"):
+                    ctx.violation("K12", C.stmt_of(x), f"{m.qualname} reads raw parent pointers (`{norm(parent(p))[:50]}`): two labels never seen before both have none and "
+                                  "compare equal, labels in one set may still point at different ancestors")
+                elif isinstance(p, ast.Subscript) and isinstance(p.ctx, ast.Store):
+                    ctx.ok("K12", f"{m.qualname}: parent table written (linking), not read")
+                else:
+                    ctx.ok("K12", f"{m.qualname}: parent table only iterated / compared")
+    if n < 2:
+        ctx.floor("K12", 99)
